@@ -1,8 +1,9 @@
 (* C05 proofs. Part A: constants; Part B: the wire invariant (what the peer has received plus what
    the writer still owes is exactly the encoding of the messages placed in the write buffer),
    for every op list and every sequence of socket budgets. *)
-From Coq Require Import List NArith Bool Lia Arith.
-From LTV Require Import Params_gen.
+From Coq Require Import List NArith ZArith Bool Lia Arith ZifyBool ZifyNat ZifyN.
+Ltac Zify.zify_post_hook ::= Z.div_mod_to_equations.
+From LTV.C05 Require Import ParamsGen.
 From LTV.C05 Require Import Model.
 Import ListNotations.
 Local Open Scope N_scope.
@@ -229,5 +230,195 @@ Section Proofs.
     intros ops Hws. pose proof (run_from_inv ops init inv_init) as [Hi Hw]. change (run_from init ops) with (run ops) in *.
     unfold Model.pend_payload in Hw. rewrite Hws in Hw. rewrite Hi in Hw by (rewrite Hws; discriminate).
     cbn [app] in Hw. now rewrite app_nil_r in Hw.
+  Qed.
+  (* ---------- message-level invariants ---------- *)
+  Lemma piece_eqb_eq : forall a b, piece_eqb a b = true <-> a = b.
+  Proof.
+    intros [a1 a2 a3] [b1 b2 b3]. unfold piece_eqb. cbn [p_index p_off p_len].
+    rewrite !andb_true_iff, !N.eqb_eq. split; [intros [[-> ->] ->]; reflexivity | intro H; inversion H; auto].
+  Qed.
+
+  Lemma existsb_piece : forall p q, existsb (piece_eqb p) q = false -> ~ In p q.
+  Proof.
+    intros p q H Hin. assert (existsb (piece_eqb p) q = true); [|congruence].
+    apply existsb_exists. exists p. split; [exact Hin|]. apply piece_eqb_eq. reflexivity.
+  Qed.
+
+  Lemma remove_first_sub : forall p q x, In x (remove_first p q) -> In x q.
+  Proof.
+    induction q as [|y q IH]; intros x; cbn [remove_first]; [tauto|].
+    destruct (piece_eqb y p); cbn [In]; [tauto|]. intros [->|H]; [tauto|right; auto].
+  Qed.
+
+  Lemma remove_first_nodup : forall p q, NoDup q -> NoDup (remove_first p q).
+  Proof.
+    induction q as [|y q IH]; intros Hnd; cbn [remove_first]; [constructor|].
+    inversion Hnd; subst. destruct (piece_eqb y p); [assumption|].
+    constructor; [intro Hin; apply remove_first_sub in Hin; contradiction | apply IH; assumption].
+  Qed.
+
+  Lemma remove_first_length : forall p q, (length (remove_first p q) <= length q)%nat.
+  Proof.
+    induction q as [|y q IH]; cbn [remove_first length]; [lia|]. destruct (piece_eqb y p); cbn [length]; lia.
+  Qed.
+
+  (* a CANCEL removes the request: with no duplicates in the queue nothing equal remains *)
+  Lemma remove_first_gone : forall p q, NoDup q -> ~ In p (remove_first p q).
+  Proof.
+    induction q as [|y q IH]; intros Hnd; cbn [remove_first]; [tauto|].
+    inversion Hnd; subst. destruct (piece_eqb y p) eqn:E.
+    - apply piece_eqb_eq in E. subst y. assumption.
+    - cbn [In]. intros [->|Hin]; [|apply IH; assumption].
+      assert (piece_eqb p p = true) by (apply piece_eqb_eq; reflexivity). congruence.
+  Qed.
+
+  Lemma nodup_snoc : forall (q : list piece) p, NoDup q -> ~ In p q -> NoDup (q ++ [p]).
+  Proof.
+    induction q as [|y q IH]; intros p Hnd Hni; cbn [app]; [constructor; [tauto|constructor]|].
+    inversion Hnd; subst. constructor.
+    - rewrite in_app_iff. cbn [In]. intros [H|[H|[]]]; [contradiction|]. subst. apply Hni. left. reflexivity.
+    - apply IH; [assumption|]. intro H. apply Hni. right. exact H.
+  Qed.
+
+  Definition len_ok (p : piece) : Prop := p_len p <= Params.c05_request_len_limit.
+  Definition msg_ok (m : msg) : Prop :=
+    match m with
+    | MChoke _ => True
+    | MPiece p => is_valid_piece L p = true /\ l_completed L (p_index p) = true /\ len_ok p
+    end.
+
+  Definition Inv2 (s : st) : Prop :=
+    Forall len_ok (queue s) /\
+    N.of_nat (length (queue s)) <= Params.c05_max_request_queue /\
+    NoDup (queue s) /\
+    Forall msg_ok (msgs s).
+
+  Lemma inv2_init : Inv2 init.
+  Proof. unfold Inv2, init; sel. cbn [length]. repeat split; try constructor. apply N.le_0_l. Qed.
+
+  Lemma fill_inv2 : forall s, Inv2 s -> Inv2 (fill s).
+  Proof.
+    intros s (Hl & Hn & Hd & Hm). unfold Model.fill, Inv2.
+    destruct (send_choked s), (choked s); sel;
+      try (destruct (queue s) as [|p q'] eqn:Hq; sel);
+      try (destruct (is_valid_piece L p && l_completed L (p_index p)) eqn:Hv; sel);
+      cbn [length] in *;
+      repeat match goal with
+      | H : Forall _ (_ :: _) |- _ => inversion H; subst; clear H
+      | H : NoDup (_ :: _) |- _ => inversion H; subst; clear H
+      end;
+      repeat split; try assumption; try constructor; try assumption; try (cbn [msg_ok]; exact I);
+      try (apply N.le_0_l); try lia;
+      try (apply andb_true_iff in Hv; destruct Hv; cbn [msg_ok]; repeat split; assumption);
+      try (constructor; [cbn [msg_ok]; exact I | assumption]);
+      try (rewrite Hq; cbn [length]; first [constructor | apply N.le_0_l]).
+  Qed.
+
+  Lemma ew_inv2 : forall f k s, Inv2 s -> Inv2 (ew f k s).
+  Proof.
+    induction f as [|f IH]; intros k s HI; cbn [Model.ew]; [exact HI|].
+    destruct (ws s).
+    - pose proof (fill_inv2 s HI) as HF. destruct (closed (fill s)); [exact HF|].
+      destruct (obuf (fill s)); [exact HF|]. apply IH. exact HF.
+    - destruct (N.min k (N.of_nat (length (obuf s))) =? 0); [exact HI|].
+      destruct (obuf (write_buf s _)); [|exact HI].
+      destruct (last_piece (write_buf s _)); apply IH; exact HI.
+    - destruct (N.min k (p_len (cur s)) =? 0); [exact HI|].
+      destruct (p_len (cur (write_payload content s _)) =? 0); [apply IH|]; exact HI.
+  Qed.
+
+  Lemma step_inv2 : forall s o, Inv2 s -> Inv2 (step s o).
+  Proof.
+    intros s o HI. destruct o as [p|p|c|k]; cbn [Model.step].
+    - unfold recv_request. destruct (closed s); [exact HI|].
+      destruct (choked s || (Params.c05_max_request_queue <=? N.of_nat (length (queue s)))
+                || (Params.c05_request_len_limit <? p_len p)) eqn:Hg; [exact HI|].
+      destruct (existsb (piece_eqb p) (queue s)) eqn:He; [exact HI|].
+      apply orb_false_iff in Hg. destruct Hg as [Hg Hlen]. apply orb_false_iff in Hg. destruct Hg as [_ Hq].
+      apply N.leb_gt in Hq. apply N.ltb_ge in Hlen.
+      destruct HI as (Hl & Hn & Hd & Hm). unfold Inv2; sel. repeat split.
+      + apply Forall_app. split; [assumption|]. constructor; [exact Hlen|constructor].
+      + rewrite app_length. cbn [length]. lia.
+      + apply nodup_snoc; [assumption|]. apply existsb_piece. exact He.
+      + assumption.
+    - unfold recv_cancel. destruct (closed s); [exact HI|].
+      destruct HI as (Hl & Hn & Hd & Hm). unfold Inv2; sel. repeat split.
+      + apply Forall_forall. intros x Hx. apply remove_first_sub in Hx. revert x Hx. apply Forall_forall. assumption.
+      + pose proof (remove_first_length p (queue s)). lia.
+      + apply remove_first_nodup. assumption.
+      + assumption.
+    - unfold decide. destruct (closed s); [exact HI|]. destruct (Bool.eqb c (choked s)); exact HI.
+    - destruct (closed s); [exact HI|]. apply ew_inv2. exact HI.
+  Qed.
+  Lemma run_from_inv2 : forall ops s, Inv2 s -> Inv2 (run_from s ops).
+  Proof.
+    induction ops as [|o ops IH]; intros s HI; [exact HI|]. cbn [run_from fold_left]. apply IH, step_inv2, HI.
+  Qed.
+
+  Lemma run_inv2 : forall ops, Inv2 (run ops).
+  Proof. intro ops. exact (run_from_inv2 ops init inv2_init). Qed.
+
+  Lemma msgs_ok : forall ops p, In (MPiece p) (msgs (run ops)) ->
+    is_valid_piece L p = true /\ l_completed L (p_index p) = true /\ len_ok p.
+  Proof.
+    intros ops p Hin. destruct (run_inv2 ops) as (_ & _ & _ & Hm).
+    rewrite Forall_forall in Hm. exact (Hm _ Hin).
+  Qed.
+
+  Lemma limit_lt_two32 : Params.c05_request_len_limit < two32.
+  Proof. reflexivity. Qed.
+
+  (* is_valid_piece with the uint32 sum means what it should, given a uint32 length *)
+  Lemma valid_spec : forall p, p_len p < two32 -> is_valid_piece L p = true ->
+    p_index p < n_pieces L /\ 0 < p_len p /\ p_off p + p_len p <= piece_size L (p_index p) /\
+    p_off p + p_len p < two32.
+  Proof.
+    intros p Hlen Hv. unfold is_valid_piece in Hv.
+    rewrite !andb_true_iff in Hv. destruct Hv as [[[H1 H2] H3] H4].
+    apply N.ltb_lt in H1. apply negb_true_iff in H2. apply N.eqb_neq in H2.
+    apply N.leb_le in H3. apply N.leb_le in H4.
+    unfold two32 in *.
+    assert (p_off p + p_len p < 4294967296).
+    { destruct (N.lt_ge_cases (p_off p + p_len p) 4294967296) as [Hlt|Hge]; [exact Hlt|exfalso].
+      assert (Hm : (p_off p + p_len p) mod 4294967296 < 4294967296) by (apply N.mod_lt; discriminate).
+      destruct (N.lt_ge_cases (p_off p) 4294967296) as [Ho|Ho]; [|lia].
+      assert ((p_off p + p_len p) mod 4294967296 = p_off p + p_len p - 4294967296).
+      { symmetry. apply N.mod_unique with (q := 1); lia. }
+      lia. }
+    rewrite N.mod_small in H3, H4 by assumption. repeat split; try assumption; lia.
+  Qed.
+
+  (* never_unverified *)
+  Theorem never_unverified : forall ops p, In (MPiece p) (msgs (run ops)) -> l_completed L (p_index p) = true.
+  Proof. intros ops p H. apply (msgs_ok ops p H). Qed.
+
+  (* never_out_of_range (no uint32 wrap) + length part of length_limit *)
+  Theorem never_out_of_range : forall ops p, In (MPiece p) (msgs (run ops)) ->
+    p_index p < n_pieces L /\ 0 < p_len p /\ p_len p <= Params.c05_request_len_limit /\
+    p_off p + p_len p <= piece_size L (p_index p).
+  Proof.
+    intros ops p H. destruct (msgs_ok ops p H) as (Hv & _ & Hl).
+    assert (Hlt : p_len p < two32) by (unfold len_ok in Hl; pose proof limit_lt_two32; lia).
+    destruct (valid_spec p Hlt Hv) as (A & B & C & _). repeat split; assumption.
+  Qed.
+
+  (* length_limit: queue bound, no duplicate requests queued, every queued length within the limit *)
+  Theorem length_limit : forall ops,
+    N.of_nat (length (queue (run ops))) <= Params.c05_max_request_queue /\
+    NoDup (queue (run ops)) /\
+    (forall p, In p (queue (run ops)) -> p_len p <= Params.c05_request_len_limit).
+  Proof.
+    intro ops. destruct (run_inv2 ops) as (Hl & Hn & Hd & _). repeat split; try assumption.
+    intros p Hp. rewrite Forall_forall in Hl. exact (Hl p Hp).
+  Qed.
+
+  (* a CANCEL really removes the request (needs the no-duplicates invariant) *)
+  Theorem cancel_effective : forall ops p, closed (run ops) = false ->
+    ~ In p (queue (run (ops ++ [RecvCancel p]))).
+  Proof.
+    intros ops p Hc. unfold Model.run. rewrite fold_left_app. cbn [fold_left Model.step].
+    change (fold_left step ops init) with (run ops).
+    unfold recv_cancel. rewrite Hc; sel.
+    apply remove_first_gone. apply (length_limit ops).
   Qed.
 End Proofs.
